@@ -16,13 +16,13 @@ RULE = ('Hypothesis-generated E3-style models built only from picklable pieces (
         'neutralised) simulate(a); simulate(b)[; simulate(c)] equals simulate(a+b[+c]); (multi) '
         'System.simulate_multiple_times returns number_of_simulations systems, system i carries index i, and its '
         'normalised data equals the in-process run and a direct call with that index for max_processes in '
-        '{1,2,5,None}. Non-trivial = a different seed / opposite tie-break policy changes the data of this model '
+        '{1,2,5,None}; (hash) the seeded run re-executed in fresh interpreters with PYTHONHASHSEED 1 and 4242 gives the same digest of the normalised data as under PYTHONHASHSEED=0. Non-trivial = a different seed / opposite tie-break policy changes the data of this model '
         '(ties and random draws really decide something) and at least 30 records; distinct = SHA-1 of the canonical '
         'case JSON.')
 ASSUMPTIONS = ['nothing the model computes looks at an asset id (gate predicates and callbacks use the index in the '
                'part name)', 'worker processes are forked; models contain no lambdas (the library documents the same '
-               'restriction)', 'PYTHONHASHSEED is fixed to 0 by ./check; hash-seed independence is exercised in the '
-               'thorough tier by re-running cases in sub-processes with other hash seeds']
+               'restriction)', 'PYTHONHASHSEED is fixed to 0 by ./check; hash-seed independence is exercised by re-running cases in '
+               'sub-processes with other hash seeds']
 MIX = [('general', 4), ('contention', 3), ('interrupt', 3), ('buffers', 1), ('groups', 2)]
 
 
@@ -42,19 +42,21 @@ def cases(modes):
 
 
 def valid(case):
-    return e3gen.well_posed(case['model']) and case['mode'] in ('seed', 'split', 'multi') and case['n'] >= 1
+    return e3gen.well_posed(case['model']) and case['mode'] in ('seed', 'split', 'multi', 'hash') and case['n'] >= 1
 
 
 def phases(tier):
     if tier == 'quick':
         return [Search('seed-and-split', lambda: cases(['seed', 'split']), 400, shards=4),
-                Search('multi-process', lambda: cases(['multi']), 40, shards=1)]
+                Search('multi-process', lambda: cases(['multi']), 40, shards=1),
+                Search('hash-seed', lambda: cases(['hash']), 6, shards=1)]
     return [Search('seed-and-split', lambda: cases(['seed', 'split']), 1000, shards=16),
-            Search('multi-process', lambda: cases(['multi']), 150, shards=1)]
+            Search('multi-process', lambda: cases(['multi']), 150, shards=1),
+            Search('hash-seed', lambda: cases(['hash']), 60, shards=4)]
 
 
 def run_case(case, ctx):
-    info = repro.check(case)
+    info = repro.check_hashseed(case) if case['mode'] == 'hash' else repro.check(case)
     classes = ['mode:' + info['mode']]
     if info['tie_sensitive']:
         classes.append('seed-or-tie-break-sensitive')
